@@ -42,9 +42,10 @@ def run(chk, repo):
     chk.ob('C19.a', 'peptide added only when keep is non-empty', repo.loc(f, add[0].ast) if add else f.where, ok,
            'a peptide can be added with an empty keep list', key=F + '::add-iff-keep', fn=f.qual)
     ap = [n for n in cfg.nodes if n.kind == 'stmt' and norm_stmt(n.ast) == 'keep.append(entry)']
-    ok = len(ap) == 1 and G.facts_at(cfg, ap[0].id).get('should_keep') is True
-    chk.ob('C19.a', 'entry appended to keep only under should_keep', repo.loc(f, ap[0].ast) if ap else f.where, ok,
-           'an entry can be kept without should_keep', key=F + '::keep-iff-should', fn=f.qual)
+    # (under which condition the single append is reached is decided, as a boolean function, by C19.e)
+    ok = len(ap) == 1
+    chk.ob('C19.a', 'one place appends the entry to keep (its condition is the keep rule, C19.e)', repo.loc(f, ap[0].ast) if ap else f.where, ok,
+           f"{len(ap)} statements append an entry to keep", key=F + '::keep-iff-should', fn=f.qual)
     seqw = [norm_stmt(w[2]) for w in G.writes_in(loop.body) if isinstance(w[2], ast.Assign) and unparse(w[2].targets[0]).endswith('.seq')]
     chk.ob('C19.a', 'sequences are never assigned', repo.loc(f, loop), not seqw, f"sequence writes {seqw}", key=F + '::seq-unchanged', fn=f.qual)
     ki = [n for n in walk_no_nested(loop) if isinstance(n, ast.Assign) and unparse(n.targets[0]) == 'keep']
@@ -72,8 +73,8 @@ def run(chk, repo):
     ctx = False
     if occ:
         anc = list(repo.ancestors(occ[0]))
-        ctx = any(isinstance(a, ast.Call) and call_name(a) == 'all' for a in anc) and \
-            any(isinstance(a, ast.Assign) and unparse(a.targets[0]) == 'should_keep' for a in anc)
+        # (that this all(...) enters the keep decision positively is part of the truth-table comparison of C19.e)
+        ctx = any(isinstance(a, ast.Call) and call_name(a) == 'all' for a in anc)
     chk.ob('C19.b', 'cutoff: single occurrence `exprs[tx] >= cutoff` under all(...) into should_keep', repo.loc(f, occ[0]) if occ else f.where, ok and ctx,
            f"cutoff occurrences {[unparse(o) for o in occ]}: a stricter cutoff could keep more", key=F + '::cutoff', fn=f.qual)
     # miscleavage bounds, decided from the must-facts at the rejecting `continue`s of the peptide loop: for bound i the reject needs
@@ -172,12 +173,33 @@ def run(chk, repo):
     # the keep decision as a boolean function of its conditions, compared by truth table with the documented decision list; the way the
     # chain is nested or which intermediate locals it uses does not matter
     from sa import sem as _s19
-    eloops = [l for l in walk_no_nested(loop) if isinstance(l, ast.For) and any(isinstance(x, ast.Assign) and unparse(x.targets[0]) == 'should_keep' for x in ast.walk(l))]
+    # the entry loop: the innermost loop in which an entry is appended to the keep list; the decision = the condition under which that append
+    # is reached (a flag such as should_keep that the append is guarded by is replaced by the value the chain gives it)
+    def is_keep(st):
+        return isinstance(st, ast.Expr) and isinstance(st.value, ast.Call) and call_name(st.value) == 'append' and unparse(st.value.func.value) == 'keep'
+    eloops = [l for l in walk_no_nested(loop) if isinstance(l, ast.For) and any(is_keep(x) for x in ast.walk(l))]
     eloops = [l for l in eloops if not any(m is not l and any(x is m for x in ast.walk(l)) for m in eloops)]      # innermost
     if len(eloops) != 1:
-        raise AnalysisError(f"anchor={F}: the loop that decides should_keep not found")
+        raise AnalysisError(f"anchor={F}: the loop that appends entries to the keep list not found")
     PUREC = ('get_transcript_ids', 'is_circ_rna', 'is_fusion', 'is_splice_altering', 'any', 'all')
-    got = _s19.decision_value(f.node, eloops[0].body, 'should_keep', allow_calls=PUREC)
+    ec19 = _s19.emit_condition(f.node, eloops[0].body, is_keep, allow_calls=PUREC)
+    got = None
+    if ec19 is not None:
+        got = ec19[0]
+        flags = {n.id for n in ast.walk(got) if isinstance(n, ast.Name)} & {t.id for st_ in ast.walk(eloops[0]) if isinstance(st_, ast.Assign) for t in st_.targets if isinstance(t, ast.Name)}
+        for fl in sorted(flags):
+            dv = _s19.decision_value(f.node, eloops[0].body, fl, allow_calls=PUREC)
+            if dv is None:
+                got = None
+                break
+
+            class _Sub(ast.NodeTransformer):
+                def visit_Name(self, n):
+                    import copy as _c
+                    return _c.deepcopy(dv) if n.id == fl else n
+            got = _Sub().visit(got)
+        if got is not None:
+            got = ast.fix_missing_locations(got)
     ev_ = eloops[0].target.id if isinstance(eloops[0].target, ast.Name) else 'entry'
     TX = f'{ev_}.get_transcript_ids()'
     deny = '(denylist is not None and peptide.seq in denylist)'
@@ -198,10 +220,7 @@ def run(chk, repo):
                    'the keep decision differs from the documented decision list (denylisted unless canonical and keep-canonical: drop; else keep-all-noncoding / keep-all-coding: keep; '
                    f"else no expression table: keep; else exemptions or expression >= cutoff) when {sorted(k for k, v in (wit or {}).items() if v)} hold and "
                    f"{sorted(k for k, v in (wit or {}).items() if not v)} do not", key=F + '::decision-order', fn=f.qual)
-    ex = [x for x in walk_no_nested(loop) if isinstance(x, ast.Assign) and unparse(x.targets[0]) == 'should_keep' and isinstance(x.value, ast.BoolOp)]
-    ok = len(ex) == 1 and [unparse(v).split('(')[0] for v in ex[0].value.values] == ['entry.is_fusion', 'entry.is_circ_rna', 'entry.is_splice_altering', 'all']
-    chk.ob('C19.e', 'expression rule: fusion or circRNA or splice-altering or all transcripts >= cutoff', repo.loc(f, loop), ok,
-           'expression/exemption disjunction altered', key=F + '::exemptions', fn=f.qual)
+    # (the exemption disjunction fusion / circRNA / splice-altering / all transcripts >= cutoff is part of the decision compared above)
     dn = [x for x in walk_no_nested(loop) if isinstance(x, ast.Assign) and unparse(x.targets[0]) == 'is_in_denylist']
     chk.ob('C19.e', 'denylist membership tested on the sequence', repo.loc(f, loop), len(dn) == 1 and unparse(dn[0].value) == 'denylist is not None and peptide.seq in denylist',
            'denylist test altered', key=F + '::denylist', fn=f.qual)
